@@ -32,9 +32,9 @@ type params struct {
 
 func tierParams(tier string) params {
 	if tier == "thorough" {
-		return params{batches: 64, cases: 260, maxSize: 12, maxAssign: 8, schedPerAssignment: 8}
+		return params{batches: 64, cases: 4000, maxSize: 12, maxAssign: 8, schedPerAssignment: 8}
 	}
-	return params{batches: 16, cases: 170, maxSize: 6, maxAssign: 4, schedPerAssignment: 4}
+	return params{batches: 16, cases: 2500, maxSize: 6, maxAssign: 4, schedPerAssignment: 4}
 }
 
 // ---- schedule description -------------------------------------------------------------
@@ -129,7 +129,8 @@ func (c *caseCtx) runSchedule(a []T3, spec schedSpec, sr *rand.Rand) string {
 	defer fp.VerifSetAtomicHook(nil)
 	defer fp.VerifSetSpawn(nil)
 
-	b := newB(nsrc)
+	b := newB(w, nsrc)
+	w.Site(tr.Root.Op)
 	defer func() {
 		b.mu.Lock()
 		for k, v := range b.hits {
@@ -213,6 +214,7 @@ func (c *caseCtx) runSchedule(a []T3, spec schedSpec, sr *rand.Rand) string {
 		b.mu.Unlock()
 		var bad []candidate
 		var lates []candidate
+		npend := 0
 		for _, in := range insts {
 			r := re.eval(in.n, in.env)
 			comp := in.f.IsCompleted()
@@ -221,6 +223,8 @@ func (c *caseCtx) runSchedule(a []T3, spec schedSpec, sr *rand.Rand) string {
 				bad = append(bad, candidate{in, "early-completion", r, "completed with " + tryStr(in.f.Value())})
 			case !comp && r.S != pending:
 				lates = append(lates, candidate{in, "late-completion", r, "not completed"})
+			case !comp:
+				npend++
 			case comp:
 				if v := in.f.Value(); !tryMatches(v, r) {
 					bad = append(bad, candidate{in, "wrong-value", r, "completed with " + tryStr(v)})
@@ -228,6 +232,20 @@ func (c *caseCtx) runSchedule(a []T3, spec schedSpec, sr *rand.Rand) string {
 			}
 		}
 		w.Add("instances.checked", int64(len(insts)))
+		w.Add("instances.asserted_still_pending", int64(npend))
+		if final {
+			for _, in := range insts {
+				switch in.n.Fam {
+				case "Apply", "Apply2", "Func", "Unit":
+					if in.f.IsCompleted() {
+						w.Add("apply_family.completed_at_final_quiescence", 1)
+						if !in.f.Value().IsSuccess() && codeOf(in.f.Value().Failed().Get()) >= 200 {
+							w.Add("apply_family.panic_exposed_as_failure", 1)
+						}
+					}
+				}
+			}
+		}
 		if len(bad) > 0 {
 			report(pickSmallest(bad))
 			return false
@@ -473,15 +491,26 @@ func main() {
 		},
 		Floors: func(tier string) map[string]int64 {
 			f := map[string]int64{
-				"trees": 1000, "schedules": 10000,
-				"staged.not_yet_determined_asserted":                    1000,
-				"staged.not_yet_determined_with_failed_source_complete": 300,
-				"staged.determined_before_all_sources_asserted":         300,
-				"distinct":                                              5000,
+				"trees": 30000, "schedules": 200000,
+				"staged.not_yet_determined_asserted":                    40000,
+				"staged.not_yet_determined_with_failed_source_complete": 20000,
+				"staged.determined_before_all_sources_asserted":         50000,
+				"instances.asserted_still_pending":                      300000,
+				"apply_family.panic_exposed_as_failure":                 20000,
+				"distinct":                                              100000,
 			}
-			min := int64(20)
+			min := int64(1000)
 			if tier == "thorough" {
-				min = 200
+				f = map[string]int64{
+					"trees": 200000, "schedules": 3000000,
+					"staged.not_yet_determined_asserted":                    1000000,
+					"staged.not_yet_determined_with_failed_source_complete": 500000,
+					"staged.determined_before_all_sources_asserted":         1300000,
+					"instances.asserted_still_pending":                      5000000,
+					"apply_family.panic_exposed_as_failure":                 400000,
+					"distinct":                                              2000000,
+				}
+				min = 80000
 			}
 			for _, h := range hitNames() {
 				f["hit."+h] = min
